@@ -46,6 +46,12 @@ func c15Cases() []c15Case {
 			for _, how := range []string{"load", "maxhistory-load-1", "maxhistory-load0"} {
 				out = append(out, c15Case{Shape: s, Limit: n, How: how})
 			}
+			// a positive per-call limit together with a maximum-history option that says something else: the call decides
+			if n > 0 && strings.HasPrefix(s, "chain") {
+				for _, how := range []string{"load-with-maxhistory-1", "load-with-maxhistory0", "load-with-maxhistory1", "load-with-maxhistory-total"} {
+					out = append(out, c15Case{Shape: s, Limit: n, How: how})
+				}
+			}
 		}
 	}
 	return out
@@ -152,6 +158,14 @@ func runC15Case(c c15Case) (string, []explore.Violation) {
 		opts.MaxHistory, arg = intp(c.Limit), -1
 	case "maxhistory-load0":
 		opts.MaxHistory, arg = intp(c.Limit), 0
+	case "load-with-maxhistory-1":
+		opts.MaxHistory = intp(-1)
+	case "load-with-maxhistory0":
+		opts.MaxHistory = intp(0)
+	case "load-with-maxhistory1":
+		opts.MaxHistory = intp(1)
+	case "load-with-maxhistory-total":
+		opts.MaxHistory = intp(c15Shapes()[c.Shape])
 	}
 	st, err := eventlogstore.NewOrbitDBEventLogStore(rPeer.API(), identity, paddr, opts)
 	if err != nil {
@@ -230,7 +244,7 @@ func payloadsOf(es []ipfslog.Entry) []string {
 func init() {
 	explore.Register(&explore.CheckDef{
 		ID: "C15", Level: "exploration",
-		Rule:   "cross product on fresh worlds, each case in a worker process with crash attribution: persisted log shape {single-writer chains of 0..6 local entries, replicated-only chains, two heads (even and uneven), merged, three heads} x limit n in {-2 .. length+2} x how the limit is given {Load(n), MaxHistory=n with Load(-1), MaxHistory=n with Load(0)}; the database is reopened over the persisted cache with a fresh store object and loaded. Oracle: no panic, error or hang; exactly min(n,total) entries listed for n>0 (everything for n<=0), a subsequence of the full listing that contains the newest entry, and exactly the last n for single-writer logs. Non-trivial = limits different from -1.",
+		Rule:   "cross product on fresh worlds, each case in a worker process with crash attribution: persisted log shape {single-writer chains of 0..6 local entries, replicated-only chains, two heads (even and uneven), merged, three heads} x limit n in {-2 .. length+2} x how the limit is given {Load(n), MaxHistory=n with Load(-1), MaxHistory=n with Load(0); for positive n on the chains also Load(n) with MaxHistory in {-1, 0, 1, total}}; the database is reopened over the persisted cache with a fresh store object and loaded. Oracle: no panic, error or hang; exactly min(n,total) entries listed for n>0 (everything for n<=0), a subsequence of the full listing that contains the newest entry, and exactly the last n for single-writer logs. Non-trivial = limits different from -1.",
 		Units:  func(tier string) []explore.Unit { return explore.ChunkUnits("c15", 16) },
 		Budget: func(tier string) float64 { return 400 },
 		RunUnit: func(c *explore.Ctx) {
